@@ -24,6 +24,7 @@ META = dict(
 META["text"] += ' (R6, N) no np.full_like / np.empty_like of a data-shaped array without dtype: the published formulas are over the reals, an integer-vote sample must not truncate 0.5 to 0.'
 META["text"] += " R4 also classifies every in-place override by its controlling condition (strict versus non-strict comparison with 0 / N t). (R7, N) no statistic stores into, or augments in place, an array that can be the caller's sample."
 META["text"] += ' (R8, N) no method keeps state between calls (see C01.R8); the factor identity is decided per regime and per value of every other condition the history branches on.'
+META["text"] += ' R2 also: the u in the factors is installed from the same mvrs_to_data call as the data (= C06.R3). R5 also: alpha_mart and betting_mart derive the overall p-value from the history in the same way.'
 
 
 def run(chk):
@@ -51,6 +52,14 @@ def run(chk):
     for name, tf in tfs.items():
         R.rule_factor_and_composition(chk, tf, {"identity": "C12.R1", "composition": "C12.R3"})
     R.rule_null_mean(chk, idx, "C12.R2", tfs)
+    # "the ALPHA and betting forms give identical p-values": identical histories (R1, R5) and the same functional of the history as
+    # overall value -- both the extremum whatever random_order says (today), or both honouring it; one of each is a disagreement
+    if "alpha_mart" in tfs and "betting_mart" in tfs:
+        from ..symx import val_atoms as _va
+        ra, rb = (R.RAND in _va(tfs[n_].an.overall) for n_ in ("alpha_mart", "betting_mart"))
+        chk.ob("C12.R5", R.W("alpha_mart"), "alpha-and-betting-report-the-same-overall-value", ra == rb,
+               "alpha_mart and betting_mart derive the overall p-value from the history in the same way (both read random_order or "
+               "neither does)", node=tfs["alpha_mart"].an.ret, strength="N", alpha_reads_random_order=ra, betting_reads_random_order=rb)
     for name in ("alpha_mart", "betting_mart"):
         R.rule_boundary_conventions(chk, tfs[name], "C12.R4")
     # R5 parametrisations
